@@ -1,7 +1,7 @@
 """C14 - fused operations equal the compositions their documentation equates them with (by-construction part only)."""
 import ast
 from sa import opcat
-from sa.core import norm, body_walk, dotted, names_in
+from sa.core import norm, body_walk, dotted, names_in, inline_expr
 from sa.optree import tree, show
 from sa.props.c05 import check_operators, V, C, MUL, ADD
 from sa.report import Incomplete
@@ -28,21 +28,28 @@ def check(model, R, tier):
     t = tree(_ret(f), model, f.mod) if _ret(f) is not None else None
     R.ob('C14.TREE', f.qualname, show(t) if t else 'no single return', t == ADD(V('a'), ('matmul', V('b'), V('c'))), 'addmm = a + b @ c', f.loc)
     f = model.func(K + 'addmm_backward')
-    calls = [(dotted(c.func), c) for c in ast.walk(f.node) if isinstance(c, ast.Call) and dotted(c.func) in ('add_backward', 'matmul_backward')]
-    ok = [d for d, _ in sorted(calls, key=lambda x: x[1].lineno)] == ['add_backward', 'matmul_backward']
+    calls = sorted([(dotted(c.func), c) for c in ast.walk(f.node) if isinstance(c, ast.Call) and dotted(c.func) in ('add_backward', 'matmul_backward')], key=lambda x: x[1].lineno)
+    ok = [d for d, _ in calls] == ['add_backward', 'matmul_backward']
     if ok:
-        ab, mb = calls[0][1] if calls[0][0] == 'add_backward' else calls[1][1], calls[1][1] if calls[1][0] == 'matmul_backward' else calls[0][1]
-        ok = [norm(a) for a in ab.args][:2] == ['grad', 'a.shape'] and [norm(a) for a in mb.args][1:] == ['b', 'c']
-        st = next(s for s in body_walk(f.node) if isinstance(s, ast.Assign) and s.value is ab)
-        mm = norm(st.targets[0].elts[1]) if isinstance(st.targets[0], ast.Tuple) else None
-        ok = ok and norm(mb.args[0]) == mm
+        ab, mb = calls[0][1], calls[1][1]
+        abind, _ = bind_call(ab, model.func(K + 'add_backward'))
+        mbind, _ = bind_call(mb, model.func(K + 'matmul_backward'))
+        inl = lambda e: norm(inline_expr(f.node, e))
+        ok = inl(abind['grad']) == 'grad' and inl(abind['a_shape']) == 'a.shape' and inl(mbind['a']) == 'b' and inl(mbind['b']) == 'c'
+        # the matmul part differentiates with the gradient of the product, i.e. the second result of add_backward
+        st = next((s_ for s_ in body_walk(f.node) if isinstance(s_, ast.Assign) and s_.value is ab), None)
+        mm = norm(st.targets[0].elts[1]) if st is not None and isinstance(st.targets[0], ast.Tuple) and len(st.targets[0].elts) == 2 else None
+        ok = ok and mm is not None and norm(mbind['grad']) == mm
     R.ob('C14.TREE', f.qualname, 'add_backward ; matmul_backward on the product gradient', ok, 'addmm backward = backward of (+) followed by backward of (@) on the gradient of the product', f.loc)
     # ---- linear = addmm | matmul on (bias, x, W.T), weight gradient transposed back
     op = byname.get('synapgrad.nn.functional.linear')
     ok = False
     if op is not None:
-        fw = {d.split('.')[-1]: [norm(a) for a in c.args] for d, c in op.fwd_calls}
-        ok = fw == {'addmm_forward': ['bias.data', 'x.data', 'weight.data.T'], 'matmul_forward': ['x.data', 'weight.data.T']}
+        from sa.rules_template import operand_of
+        fw = {}
+        for d, c in op.fwd_calls:
+            fw[d.split('.')[-1]] = [operand_of(a, op, op.func) for a in c.args]
+        ok = fw == {'addmm_forward': [('bias', 'data'), ('x', 'data'), ('weight', 'data.T')], 'matmul_forward': [('x', 'data'), ('weight', 'data.T')]}
         wacc = [a for a in op.accs if isinstance(a.target, ast.Name) and a.target.id == 'weight']
         ok = ok and len(wacc) == 1 and isinstance(wacc[0].rhs, ast.Attribute) and wacc[0].rhs.attr == 'T'
     R.ob('C14.TREE', 'synapgrad.nn.functional.linear', 'addmm(bias, x, W.T) | matmul(x, W.T); dW = (.)^T', ok, 'linear = x @ W.T + b through the addmm / matmul kernels', op.func.loc if op else '')
@@ -53,7 +60,18 @@ def check(model, R, tier):
     # ---- stack_backward = unbind_forward
     f = model.func(K + 'stack_backward')
     r = _ret(f)
+    r = inline_expr(f.node, r) if r is not None else None
     ok = isinstance(r, ast.Call) and dotted(r.func) == 'unbind_forward' and [norm(a) for a in r.args] == ['grad', 'axis']
+    if not ok and r is not None:
+        # the same expression as unbind_forward's body with (a, axis) := (grad, axis)  (helper inlined by hand)
+        uf = model.func(K + 'unbind_forward')
+        ur = _ret(uf)
+        if ur is not None:
+            import copy
+            class Tr(ast.NodeTransformer):
+                def visit_Name(self, n):
+                    return ast.Name(id={'a': 'grad'}.get(n.id, n.id), ctx=n.ctx)
+            ok = norm(Tr().visit(copy.deepcopy(inline_expr(uf.node, ur)))) == norm(r)
     R.ob('C14.TREE', f.qualname, norm(r) if r is not None else 'no return', ok, 'the backward of stack is unbind along the same axis', f.loc)
     # ---- pooling = window extraction followed by max / mean (and the reverse in backward)
     for n, red in (('max_pool1d', 'max'), ('max_pool2d', 'max'), ('avg_pool1d', 'mean'), ('avg_pool2d', 'mean')):
@@ -66,15 +84,10 @@ def check(model, R, tier):
             and norm(pw[0].args[0]) == 'windows_grad'
         R.ob('C14.TREE', f.qualname, 'extract_windows ; %s  /  %s_backward ; place_windows' % (red, red), ok, 'pooling = window extraction followed by %s over the window axes' % red, f.loc)
     # ---- mean_backward = sum_backward followed by division by the count
-    sb, mb = model.func(K + 'sum_backward'), model.func(K + 'mean_backward')
-    s_stmts = [norm(s) for s in sb.node.body if not isinstance(s, ast.Return)]
-    m_stmts = [norm(s) for s in mb.node.body if not isinstance(s, ast.Return)]
-    extra = [s for s in m_stmts if s not in s_stmts]
-    common = [s for s in s_stmts if s in m_stmts]
-    rs, rm = _ret(sb), _ret(mb)
-    ok = common == s_stmts and rm is not None and isinstance(rm, ast.BinOp) and isinstance(rm.op, ast.Div) and norm(rm.left) == norm(rs) and norm(rm.right) == 'n_samples' \
-        and all(('axis' in s or 'n_samples' in s) for s in extra)
-    R.ob('C14.TREE', mb.qualname, 'sum_backward body + / n_samples (extra statements: %d)' % len(extra), ok, 'mean = sum / count: the backward kernels differ exactly by the division by the element count', mb.loc)
+    from sa import rules_kernel as RK
+    sub2 = _Sub(R)
+    sub2.ob_rule = 'C14.TREE'
+    RK.check_mean_divisor(model, sub2, 'C14')      # mean = sum / count: the backward divides the broadcast gradient by the element count
     # ---- Neuron = Linear(in, 1)
     ni = model.func('synapgrad.nn.layers.Neuron.__init__')
     sup = [c for c in ast.walk(ni.node) if isinstance(c, ast.Call) and norm(c.func) == 'super().__init__']
